@@ -14,6 +14,7 @@ open Snel Snel.Proto Snel.Sequence
   (I cells: `n` or decimal, S cells: hex).
 
 Answer: `ok <n> z.r>z.r …` in emission order (first>second row of `matched_rows`),
+`skip` for the line `skip` (end-to-end cases whose answer is not determined),
 `bad-order` if the given keys are not a permutation of the model's keys, `bad-op` otherwise. -/
 
 abbrev P := StateT (List String) Option
@@ -143,6 +144,7 @@ def pCase : P Case := do
 def showPair (p : Pair) : String := s!"{p.1.zone}.{p.1.idx}>{p.2.zone}.{p.2.idx}"
 
 def answer (line : String) : String :=
+  if words line == ["skip"] then "skip" else
   match (pCase.run (words line)) with
   | none => "bad-op"
   | some (c, _) =>
